@@ -406,41 +406,56 @@ pub fn run_c07(ctx: &Ctx) -> i32 {
     ctx.add("model_paths", states.len() as u64);
     par_io(ctx, &jobs, io_threads(), |&(i, wait, eof), l| replay_trace(ctx, &states[i], wait, eof, l));
 
-    // position tracking: every move path of length <= 3 (quick 2 + strided 3) from the start
-    // position and length <= 2 from special-rule roots
+    // position tracking: depth-first walk over every move path of length <= 3 (quick: the
+    // third ply strided) from the start position and length <= 2 from special-rule roots.
+    // After each subtree the parent's `position` command is sent again (a take-back: the
+    // new move list is a strict prefix of the previous one), so histories of `position`
+    // commands in both directions are covered, not only growing move lists.
     let mut cmds: Vec<(String, String)> = Vec::new();
+    let mut batch_starts: Vec<usize> = Vec::new();
     {
+        fn walk(base: &str, base_is_startpos: bool, path: &mut Vec<String>, p: &Pos, depth: usize, max: usize, stride: usize, counter: &mut usize, out: &mut Vec<(String, String)>) {
+            let cmd = if path.is_empty() { base.to_string() } else { format!("{} moves {}", base, path.join(" ")) };
+            out.push((cmd.clone(), p.fen()));
+            if depth == max {
+                return;
+            }
+            let mut any = false;
+            for (m, n) in p.legal() {
+                if depth + 1 == max && max >= 3 {
+                    *counter += 1;
+                    if *counter % stride != 0 {
+                        continue;
+                    }
+                }
+                path.push(m.lan());
+                walk(base, base_is_startpos, path, &n, depth + 1, max, stride, counter, out);
+                path.pop();
+                any = true;
+            }
+            if any {
+                // take-back to this node
+                out.push((cmd, p.fen()));
+            }
+        }
         let root = Pos::startpos();
-        let mut level: Vec<(Vec<String>, Pos)> = vec![(vec![], root)];
-        for d in 0..3 {
-            let mut next = Vec::new();
-            for (path, p) in &level {
-                for (m, n) in p.legal() {
-                    let mut np = path.clone();
-                    np.push(m.lan());
-                    next.push((np, n));
-                }
-            }
-            for (i, (path, p)) in next.iter().enumerate() {
-                if d < 2 || !quick || i % 7 == 0 {
-                    cmds.push((format!("position startpos moves {}", path.join(" ")), p.fen()));
-                }
-            }
-            level = next;
+        let mut counter = 0usize;
+        for (m1, n1) in root.legal() {
+            batch_starts.push(cmds.len());
+            let mut path = vec![m1.lan()];
+            walk("position startpos", true, &mut path, &n1, 1, 3, if quick { 7 } else { 1 }, &mut counter, &mut cmds);
+            cmds.push(("position startpos".to_string(), root.fen()));
         }
         let mut roots: Vec<Pos> = crate::families::adversarial_roots();
         roots.extend(crate::families::perft_roots().into_iter().map(|x| x.1));
         for r in roots {
-            cmds.push((format!("position fen {}", r.fen()), r.fen()));
-            for (m1, n1) in r.legal() {
-                cmds.push((format!("position fen {} moves {}", r.fen(), m1.lan()), n1.fen()));
-                for (m2, n2) in n1.legal() {
-                    cmds.push((format!("position fen {} moves {} {}", r.fen(), m1.lan(), m2.lan()), n2.fen()));
-                }
-            }
+            batch_starts.push(cmds.len());
+            let mut path = Vec::new();
+            walk(&format!("position fen {}", r.fen()), false, &mut path, &r, 0, 2, 1, &mut counter, &mut cmds);
         }
     }
-    let batches: Vec<Vec<(String, String)>> = cmds.chunks(200).map(|c| c.to_vec()).collect();
+    batch_starts.push(cmds.len());
+    let batches: Vec<Vec<(String, String)>> = batch_starts.windows(2).map(|w| cmds[w[0]..w[1]].to_vec()).collect();
     par_io(ctx, &batches, crate::explore::threads(), |b, l| tracking_batch(ctx, b, l));
     ctx.sample(json!({"tracking": cmds[100].0, "expected_fen": cmds[100].1}));
     let traces = ctx.get("traces");
@@ -450,7 +465,7 @@ pub fn run_c07(ctx: &Ctx) -> i32 {
         ctx.get("commands") + ctx.get("tracking_commands"),
         traces + ctx.get("tracking_commands"),
         true,
-        "session model (stateright): every command path of length <= 3 over {ucinewgame, stop, position x menu, go x menu} (thorough: also uci/isready/quit and all length-4 paths) plus every position-go-position-go path; every model path - not only counterexamples - is replayed on a fresh `weechess uci` process with an isready barrier after each command and two timing answers (wait for bestmove / send the next command immediately); per go the number of bestmove lines up to the next collecting command must equal the model's prediction (1 iff the model position has a legal move) and each bestmove must be legal in the model position; exit status 0. Tracking: every move path of length <= 2 (quick; 3 strided) / 3 from the start position and length <= 2 from the special-rule corpus, FEN printed by `.state` vs. the model's",
+        "session model (stateright): every command path of length <= 3 over {ucinewgame, stop, position x menu, go x menu} (thorough: also uci/isready/quit and all length-4 paths) plus every position-go-position-go path; every model path - not only counterexamples - is replayed on a fresh `weechess uci` process with an isready barrier after each command and two timing answers (wait for bestmove / send the next command immediately); per go the number of bestmove lines up to the next collecting command must equal the model's prediction (1 iff the model position has a legal move) and each bestmove must be legal in the model position; exit status 0. Tracking: depth-first walk over every move path of length <= 3 (quick: third ply strided 1/7) from the start position and length <= 2 from the special-rule corpus, with the parent's command re-sent after every subtree (take-backs), FEN printed by `.state` vs. the model's",
         &["the OS scheduler inside the engine process is not controlled: two timing answers per trace; finer timings are explored in-process by loom and the stop-instant enumerator", "the binary is built from the working tree with the hooks on; the hook only makes the default table size configurable (16 MiB here instead of 1 GiB)"],
     )
 }
@@ -526,9 +541,9 @@ pub fn run_c18(ctx: &Ctx) -> i32 {
         hists.extend(next.iter().cloned());
         frontier = next;
     }
-    let jobs: Vec<(usize, usize)> = (0..pairs.len()).flat_map(|p| (0..hists.len()).map(move |h| (p, h))).collect();
+    let jobs: Vec<(usize, usize, usize)> = (0..pairs.len()).flat_map(|p| (0..hists.len()).flat_map(move |h| (0..3usize).map(move |t| (p, h, t)))).collect();
     ctx.add("histories", hists.len() as u64);
-    par_io(ctx, &jobs, io_threads(), |&(pi, hi), l| {
+    par_io(ctx, &jobs, io_threads(), |&(pi, hi, tail_kind), l| {
         let (m, s_pos, mv) = &pairs[pi];
         let hist = &hists[hi];
         let mut s = Session::spawn();
@@ -572,9 +587,23 @@ pub fn run_c18(ctx: &Ctx) -> i32 {
         if searched_s {
             l.inc("histories_that_searched_S");
         }
-        for t in ["ucinewgame".to_string(), format!("position fen {}", m.fen())] {
+        // the new game is opened in three orders: the customary `ucinewgame; position M`,
+        // `position M; ucinewgame`, and the latter with an `isready` in between
+        let tail: Vec<String> = match tail_kind {
+            0 => vec!["ucinewgame".to_string(), format!("position fen {}", m.fen())],
+            1 => vec![format!("position fen {}", m.fen()), "ucinewgame".to_string()],
+            _ => vec![format!("position fen {}", m.fen()), "ucinewgame".to_string(), "isready".to_string()],
+        };
+        for t in tail {
             sent.push(t.clone());
-            s.send(&t);
+            if t == "isready" {
+                if s.barrier(HANG).is_err() {
+                    ctx.violation("process-died", sent.join("; "), json!({"trace": sent}));
+                    return;
+                }
+            } else {
+                s.send(&t);
+            }
         }
         if s.barrier(HANG).is_err() {
             ctx.violation("process-died", sent.join("; "), json!({"trace": sent, "transcript": s.transcript}));
@@ -611,7 +640,7 @@ pub fn run_c18(ctx: &Ctx) -> i32 {
         ctx.get("sessions").max(1),
         ctx.get("sessions"),
         true,
-        "every command history of length <= 3 (thorough 4) over {position S, position other, go depth 1 (waited), go depth 3 (not waited), stop, isready} followed by `ucinewgame; position M; go depth 4`, for tablebase pairs (M,S): M is a mate in 3 plies whose only first move that mates within 5 plies leads to S (both colours, rook and queen); each history is one process run; the answer must be the one a fresh process gives (the empty history is in the set): terminal winning score and that unique bestmove",
+        "every command history of length <= 3 (thorough 4) over {position S, position other, go depth 1 (waited), go depth 3 (not waited), stop, isready} followed by the new game opened in three orders (`ucinewgame; position M`, `position M; ucinewgame`, `position M; ucinewgame; isready`) and `go depth 4`, for tablebase pairs (M,S): M is a mate in 3 plies whose only first move that mates within 5 plies leads to S (both colours, rook and queen); each history is one process run; the answer must be the one a fresh process gives (the empty history is in the set): terminal winning score and that unique bestmove",
         &["seeds inside the UCI loop come from the OS; the expected answer is therefore the tablebase-unique move, not a byte-identical transcript"],
     )
 }
@@ -924,9 +953,11 @@ pub fn run_c14(ctx: &Ctx) -> i32 {
     let chunks: Vec<Vec<String>> = lines.chunks(40).map(|c| c.to_vec()).collect();
     par_io(ctx, &chunks, crate::explore::threads(), |chunk, l| {
         let mut s = Session::spawn();
-        for line in chunk {
+        for (line, ctx_i) in chunk.iter().flat_map(|l| [(l, 0usize), (l, 1usize)]) {
             l.inc("uci_lines_sent");
-            s.send("position startpos");
+            // two contexts: a book position (the book answers `go` before any search starts)
+            // and an out-of-book position (a `go` line really starts a search)
+            s.send(if ctx_i == 0 { "position startpos" } else { "position fen 8/8/8/4k3/8/8/3P4/4K3 w - - 0 1" });
             s.send(line);
             let first = line.split_ascii_whitespace().next().unwrap_or("");
             let r = s.barrier(HANG);
@@ -938,7 +969,7 @@ pub fn run_c14(ctx: &Ctx) -> i32 {
                 };
                 let old = std::mem::replace(&mut s, Session::spawn());
                 let (_, code, err, _) = old.finish(Duration::from_secs(5));
-                ctx.violation(kind, shown, json!({"line": line, "exit_status": code, "stderr": err.iter().rev().take(6).collect::<Vec<_>>()}));
+                ctx.violation(kind, shown, json!({"line": line, "context": if ctx_i == 0 { "position startpos" } else { "position fen 8/8/8/4k3/8/8/3P4/4K3 w - - 0 1" }, "exit_status": code, "stderr": err.iter().rev().take(6).collect::<Vec<_>>()}));
                 continue;
             }
             if first == "go" {
@@ -967,7 +998,7 @@ pub fn run_c14(ctx: &Ctx) -> i32 {
         parser_inputs + ctx.get("uci_lines_sent"),
         parser_inputs + ctx.get("uci_lines_sent"),
         true,
-        "parser level (run in two processes: overflow-checks+debug-assertions build and plain release build): every string of length <= 3 over a 12-symbol FEN class alphabet, every single and (quick: strided) double mutation of 4 valid FENs under a finite mutation menu (rank floods such as 32 x '8', nine pieces in a rank, field deletions/duplications, huge counters, non-ASCII, separators); every string of length <= 5 (thorough 6) over an 18-symbol SAN alphabet incl. a multi-byte character; process level: every generated UCI line (mutated move tokens, mutated FENs, bad numbers, unknown / truncated commands, over-long lines) is sent to a live `weechess uci` after `position startpos`, followed by `isready`; a death is attributed to the line, the process restarted, enumeration continues",
+        "parser level (run in two processes: overflow-checks+debug-assertions build and plain release build): every string of length <= 3 over a 12-symbol FEN class alphabet, every single and (quick: strided) double mutation of 4 valid FENs under a finite mutation menu (rank floods such as 32 x '8', nine pieces in a rank, field deletions/duplications, huge counters, non-ASCII, separators); every string of length <= 5 (thorough 6) over an 18-symbol SAN alphabet incl. a multi-byte character; process level: every generated UCI line (mutated move tokens, mutated FENs, bad numbers, unknown / truncated commands, over-long lines) is sent to a live `weechess uci` in two contexts (after `position startpos`, where the book answers a `go`, and after an out-of-book `position fen`), followed by `isready`; a death is attributed to the line, the process restarted, enumeration continues",
         &["'all strings' is bounded by the length / mutation-distance bounds stated in the rule", "the process-level claim is judged on the release build of the CLI (the dev profile of the CLI does not compile on this toolchain)"],
     )
 }
